@@ -63,6 +63,79 @@ theorem C14_map_owned (v : Volume) (surface : Nat) (s : Nat)
        v.cat.entries.any (fun e => e.fileLength != 0 && decide (e.startSector ≤ s) && decide (s < e.startSector + Spec.sectorsFor e.fileLength))) :=
   map_owned v surface s hb ho hc
 
+/-- **sector-map / extract-unused: ownership, any volume.**  For every volume
+    (any catalogue location, any origin — the volumes of an Opus DDOS disc start
+    on later tracks), every surface number, label and starting map: after the
+    volume has added its sectors, a sector is labelled iff it was labelled before,
+    or is one of the volume's catalogue sectors (`catLoc` is absolute), or lies in
+    the extent of a non-empty file (start sectors are relative to `origin`).  The
+    two bounds say that no sector number wraps modulo 2^32: a start sector is below
+    1024 and a file spans at most 1024 sectors. -/
+theorem C14_map_owned_volume (surface : Nat) (multi : Bool) (label : Option Nat) (v : Volume) (m : SecMap) (s : Nat)
+    (hb : ∀ e ∈ v.cat.entries, ∀ i, e.m i < 256)
+    (hc : v.catLoc + v.cat.catalogSectors ≤ 4294967296) (ho : v.origin + 2048 ≤ 4294967296) :
+    ((volumeMapSectors surface multi label v m).at s).isSome =
+      ((m.at s).isSome ||
+       decide (v.catLoc ≤ s ∧ s < v.catLoc + v.cat.catalogSectors) ||
+       v.cat.entries.any (fun e => e.fileLength != 0 && decide (v.origin + e.startSector ≤ s) &&
+         decide (s < v.origin + e.startSector + Spec.sectorsFor e.fileLength))) :=
+  map_owned_general surface multi label v m s hb hc ho
+
+/-- **sector-map / extract-unused: ownership, whole disc side.**  In the map
+    `sector-map` prints for a file system (any number of volumes), a sector is
+    labelled iff it is the Opus DDOS disc catalogue (sector 16) or its reserved
+    sector (17), or some volume's catalogue sector, or lies in the extent of a
+    non-empty file of some volume. -/
+theorem C14_map_owned_disc (fs : FileSystem) (surface : Nat) (s : Nat)
+    (hv : ∀ p ∈ fs.vols, (∀ e ∈ p.2.cat.entries, ∀ i, e.m i < 256) ∧
+        p.2.catLoc + p.2.cat.catalogSectors ≤ 4294967296 ∧ p.2.origin + 2048 ≤ 4294967296) :
+    ((sectorMapOf fs surface).at s).isSome =
+      ((fs.fmt == Format.OpusDDOS && (s == 16 || s == 17)) ||
+       fs.vols.any (fun p =>
+         decide (p.2.catLoc ≤ s ∧ s < p.2.catLoc + p.2.cat.catalogSectors) ||
+         p.2.cat.entries.any (fun e => e.fileLength != 0 && decide (p.2.origin + e.startSector ≤ s) &&
+           decide (s < p.2.origin + e.startSector + Spec.sectorsFor e.fileLength)))) :=
+  map_owned_fs fs surface s hv
+
+/-- a two-volume Opus DDOS side: volume A (catalogue at sectors 0–1, data from
+    sector 18) holds `$.ALPHA`, 0x300 bytes at relative sector 0; volume B
+    (catalogue at sectors 2–3, data from sector 360) holds `$.BETA`, 0x101 bytes
+    at relative sector 5 -/
+def twoVolumeSide : FileSystem :=
+  let frag (total : Nat) (e : Entry) : Fragment :=
+    { fmt := Format.OpusDDOS, title := [], seq := 0, lastPos := 8, boot := 0, total := total, entries := [e] }
+  { fmt := Format.OpusDDOS
+    geom := { cylinders := 80, heads := 1, sectors := 18, encoding := none }
+    vols :=
+      [ (some 65, { catLoc := 0, origin := 18, len := 342,
+                    cat := { fmt := Format.OpusDDOS,
+                             frags := [frag 342 { name := [65, 76, 80, 72, 65, 32, 32, 36],
+                                                  md := [0, 25, 35, 128, 0, 3, 0, 0] }] } }),
+        (some 66, { catLoc := 2, origin := 360, len := 1080,
+                    cat := { fmt := Format.OpusDDOS,
+                             frags := [frag 1080 { name := [66, 69, 84, 65, 32, 32, 32, 36],
+                                                   md := [0, 25, 35, 128, 1, 1, 0, 5] }] } }) ] }
+
+/-- non-vacuity: the two-volume side satisfies the hypotheses of `C14_map_owned_disc`
+    (and each volume those of `C14_map_owned_volume`) -/
+example : ∀ p ∈ twoVolumeSide.vols, (∀ e ∈ p.2.cat.entries, ∀ i, e.m i < 256) ∧
+    p.2.catLoc + p.2.cat.catalogSectors ≤ 4294967296 ∧ p.2.origin + 2048 ≤ 4294967296 := by
+  intro p hp
+  simp only [twoVolumeSide, List.mem_cons, List.not_mem_nil, or_false] at hp
+  rcases hp with rfl | rfl
+  all_goals
+    refine ⟨?_, by decide, by decide⟩
+    intro e he i
+    simp only [Catalog.entries, List.flatMap_cons, List.flatMap_nil, List.append_nil,
+      List.mem_cons, List.not_mem_nil, or_false] at he
+    subst he
+    exact arr_lt _ (by decide) i
+
+/-- and the theorem's verdicts on it: sectors 20 (`A.$.ALPHA`), 366 (`B.$.BETA`), 3
+    (volume B's catalogue) and 16 (disc catalogue) are owned, 21 and 367 are not -/
+example : [20, 366, 3, 16, 21, 367].map (fun s => ((sectorMapOf twoVolumeSide 0).at s).isSome) =
+    [true, true, true, true, false, false] := by decide
+
 /-- **extract-unused writes exactly the maximal unowned runs below the end of the disc.** -/
 theorem C14_unused_spans (sm : SecMap) (last : Nat) :
     (∀ p ∈ unusedSpans sm last, p.1 < p.2 ∧ p.2 ≤ last ∧
